@@ -85,6 +85,22 @@ def limits(db, ctx):
             swap_i = i
     ctx.ob("commit|reject-before-install", guard_i is not None and swap_i is not None and guard_i < swap_i,
            "commit: REALLY_MAX_LENGTH rejection at statement %s, first mem::swap at statement %s (guard must precede)" % (guard_i, swap_i), fn=cm)
+    # the compared size must be the value resolve_edits returns: it stops copying (and returns early) once the running size
+    # exceeds the limit, so the length of the partially written buffer is NOT the size of the rewritten text
+    src_ok = False
+    shown = None
+    if guard_i is not None:
+        e = stmts[guard_i].get("e") or stmts[guard_i].get("init")
+        c = cmp_atom(e["cond"])
+        if c:
+            side = c[1] if not (peel_casts(c[1]).get("k") == "Path" and path_ends(peel_casts(c[1]).get("path"), "REALLY_MAX_LENGTH")) else c[2]
+            og = origins(db, cm, side, depth=0)
+            shown = sorted(short_path(o[1]) for o in og if o[0] == "call") + sorted("field " + o[2] for o in og if o[0] == "field")
+            src_ok = any(o[0] == "call" and path_ends(o[1], "resolve_edits") for o in og) and not any(o[0] == "field" for o in og)
+    ctx.ob("commit|compares-returned-size", src_ok, "the size compared with REALLY_MAX_LENGTH comes from %s (must be the return value of resolve_edits, which "
+                                                    "returns early with a partially filled buffer when the limit is exceeded)" % shown, fn=cm)
+    early = any(ek == "ret" and pol and "REALLY_MAX_LENGTH" in render(cond) for ifn, cond, pol, ek, ps in guarded_exits(re_fn_hir(db)))
+    ctx.ob("resolve_edits|early-return-on-overflow", early, "resolve_edits returns as soon as its running size exceeds REALLY_MAX_LENGTH: %s" % early)
     # the value compared is resolve_edits' return value
     re = db.one("resolve_edits", None)
     ret = re.hir.get("expr")
@@ -104,6 +120,10 @@ def limits(db, ctx):
     ctx.ob("u16-casts-inventory", casts >= 20, "%d `usize as u16` casts in the analysis closure are covered by the two length guards "
                                                "(floor 20; a drop means the closure was not analysed)" % casts, nontrivial=False)
     ctx.floor(5)
+
+
+def re_fn_hir(db):
+    return db.one("resolve_edits", None).hir
 
 
 def _bound_ev(isb, point):
@@ -389,6 +409,37 @@ def tainted_arith(db, ctx):
                                            "saturating_*/checked_*/min before the operation, or a range check at load)" % (
                                                f.short(), render(x), x["op"], short_path(adt_k), fl["name"], fl["ty"], tainted[0][1], tainted[0][0].short()),
                                            fn=f, site=x.get("sp"))
+                # ... and one call level down: the tainted field handed to a function that does unchecked arithmetic on that parameter
+                g = cg.get(db)
+                for f in db.fns.values():
+                    if f.pkg != "sudachi" or not f.hir:
+                        continue
+                    for c, ps in walk(f.hir):
+                        if not is_call(c):
+                            continue
+                        args = call_args(c)
+                        for ai, a in enumerate(args):
+                            a2 = peel_casts(a)
+                            if not (a2.get("k") == "Field" and a2.get("name") == fl["name"] and a2.get("adt") == adt_k):
+                                continue
+                            targets = [c.get("resolved")] if c.get("resolved") in db.fns else []
+                            if not targets:
+                                targets = [k2 for k2 in g.impls.get(c.get("callee"), [])] or ([c.get("callee")] if c.get("callee") in db.fns else [])
+                            for tk in targets:
+                                tf = db.fns[tk]
+                                plist = tf.info.get("params") or []
+                                if ai >= len(plist) or plist[ai].get("k") != "Bind" or not tf.hir:
+                                    continue
+                                plid = plist[ai]["lid"]
+                                for x, _ in walk(tf.hir):
+                                    if x.get("k") in ("Binary", "AssignOp") and x.get("op") in ARITH:
+                                        if any(peel_casts(sd).get("k") == "Path" and peel_casts(sd).get("lid") == plid for sd in (x["l"], x["r"])):
+                                            n += 1
+                                            ctx.ob("%s|%s.%s|via %s|%s" % (f.short(), short_path(adt_k), fl["name"], tf.short(), x["op"]), False,
+                                                   "%s passes the unvalidated setting %s.%s to %s, which computes `%s` with an unchecked %s on that "
+                                                   "parameter: an extreme configured value makes analysis panic with arithmetic overflow" % (
+                                                       f.short(), short_path(adt_k), fl["name"], tf.short(), render(x), x["op"]),
+                                                   fn=tf, site=x.get("sp"))
                 ctx.ob("%s.%s|tainted-field" % (short_path(adt_k), fl["name"]), True,
                        "field %s.%s is an unvalidated copy of a setting (%s); arithmetic uses are listed separately" % (
                            short_path(adt_k), fl["name"], tainted[0][1]), nontrivial=False)
